@@ -112,7 +112,7 @@ def class_twins(chk, prog):
     chk.ob("TWIN.class", f.ref, "QuaternionArray.from_rpy(A)[i] == normalised Quaternion.from_rpy(A[i])", from_rpy, module=QUAT, function="QuaternionArray.from_rpy", construct="from_rpy", line=f.node.lineno)
 
 
-def from_dcm_arms(chk, prog):
+def from_dcm_arms(chk, prog, tier="quick"):
     """TWIN.from_DCM: QuaternionArray(DCM=[R...]) row i equals Quaternion(dcm=R_i) for the default method on each of its four pivot arms.  The arm is selected
     by a sample rotation (dominant scalar / x / y / z component) that decides every data-dependent test of BOTH implementations; the results compared are the
     exact closed forms of that arm, so a sign or index slip in one row of a vectorised copy is found whatever the code looks like."""
@@ -123,6 +123,10 @@ def from_dcm_arms(chk, prog):
     f = prog.func(QUAT + "::QuaternionArray.from_DCM")
     chk.touch(f)
     dominant = {"w": (0.2, 0.25, 0.3), "x": (0.85, 0.25, 0.3), "y": (0.25, 0.85, 0.3), "z": (0.25, 0.3, 0.85)}
+    if tier == "thorough":
+        # negative dominant components, two nearly equal largest components, and rotations close to a half-turn (scalar part nearly 0)
+        dominant.update({"-x": (-0.85, 0.25, 0.3), "-y": (0.25, -0.85, 0.3), "-z": (0.25, 0.3, -0.85), "x~y": (0.62, 0.61, 0.3), "y~z": (0.3, 0.61, 0.62),
+                         "x near half-turn": (0.8, 0.45, 0.39), "y near half-turn": (0.45, 0.8, 0.39), "z near half-turn": (0.39, 0.45, 0.8), "tiny angle": (1e-4, 2e-4, -1e-4)})
     for name, (x_, y_, z_) in dominant.items():
         def law(x_=x_, y_=y_, z_=z_, name=name):
             w_ = math.sqrt(1 - x_ * x_ - y_ * y_ - z_ * z_)
@@ -485,7 +489,7 @@ def run(chk, prog, tier):
                        "by np.sign(<q1,q2>) zeroes one operand; min(|q1-q2|, |q1+q2|) has no such hole")
     class_twins(chk, prog)
     dcm2quat_twins(chk, prog)
-    from_dcm_arms(chk, prog)
+    from_dcm_arms(chk, prog, tier)
     estimator_twins(chk, prog)
     from props.c18 import metric_twins
     metric_twins(chk, prog)
